@@ -197,10 +197,11 @@ def gen_c11(rng: random.Random) -> dict:
     # closes and cancels
     if rng.random() < 0.45:
         w, t0, timeout, types, key = pick(rng, calls)
-        cause = pick(rng, ["fin", "rst", "force_disconnect", "dev_disconnect", "garbage", "cancel", "cancel"])
+        cause = pick(rng, ["fin", "rst", "etimedout", "eio", "force_disconnect", "dev_disconnect", "garbage", "cancel", "cancel"])
         trig = pick(rng, [{"t": t0 + pick(rng, [0.0, 0.1, 0.3, 0.49, timeout, timeout - 1e-7])}, {"on": "op_start", "match": {"actor": w}, "turns": pick(rng, [0, 1, 2])}])
         phase = pick(rng, ["pre", "post"])
-        if cause in ("fin", "rst"):
+        if cause in ("fin", "rst", "etimedout", "eio"):
+            # (ETIMEDOUT surfaces as the builtin TimeoutError, which is also what asyncio's timeouts raise)
             events.append({"at": trig, "do": "fault", "kind": cause, "latency": 0.0})
         elif cause == "force_disconnect":
             events.append({"at": trig, "do": "poke", "what": "force_disconnect", "phase": phase})
